@@ -177,6 +177,22 @@ func runC12(o *Out) {
 		}
 		checkRepair(o, ff)
 	}
+	// two fragments that abut with facing partial ends and differ in exactly one
+	// qualifier (its value, or its presence): never the same class, whatever the name
+	qnames := []string{"codon_start", "gene", "locus_tag", "old_locus_tag", "product", "note", "db_xref", "transl_table", "protein_id",
+		"EC_number", "function", "standard_name", "translation", "exception", "inference", "experiment", "allele", "gene_synonym",
+		"number", "pseudo", "ribosomal_slippage", "organism", "mol_type", "strain", "x_unknown"}
+	for _, qn := range qnames {
+		for _, key := range keys {
+			left, right := gts.PartialRange(1, 5, gts.Partial3), gts.PartialRange(5, 9, gts.Partial5)
+			base := gts.Props{{"gene", "g"}}
+			pa := append(append(gts.Props{}, base...), []string{qn, "1"})
+			pb := append(append(gts.Props{}, base...), []string{qn, "2"})
+			checkRepair(o, []gts.Feature{{Key: key, Loc: left, Props: pa}, {Key: key, Loc: right, Props: pb}})
+			checkRepair(o, []gts.Feature{{Key: key, Loc: left, Props: pa}, {Key: key, Loc: right, Props: base}})
+			checkRepair(o, []gts.Feature{{Key: key, Loc: gts.Complemented{Location: right}, Props: pb}, {Key: key, Loc: gts.Complemented{Location: left}, Props: pa}})
+		}
+	}
 	// restoration: slice;...;slice;concat;repair
 	var origs []gts.Location
 	for _, l := range shapes {
